@@ -169,8 +169,13 @@ type genWalker struct {
 	memo    map[string]lexState
 	curFn   string
 
-	Splices   []*genSplice
-	Frags     []genFrag
+	Splices []*genSplice
+	Frags   []genFrag
+	// Segs: the emitted text per straight-line stretch of the template code: constant text in emission order with \x00
+	// for every dynamic splice; a new segment starts at every branch, loop and return. Rules about the shape of the
+	// generated code look at segments, so that it does not matter how the text is cut into WriteString calls or locals.
+	Segs      []genFrag
+	curSeg    *genFrag
 	Problems  []genProblem
 	lastConst string
 
@@ -594,6 +599,30 @@ func (a *genWalker) feedExpr(l lexState, e ast.Expr) lexState {
 		a.problem(e, "expression written to the output buffer could not be classified: "+types.ExprString(e))
 		return l
 	}
+	// adjacent constant pieces of one expression are one fragment (a quote kept in a local such as
+	// `q := "\"" + name + "\""` must not split the text it is spliced into)
+	var merged []genPiece
+	for _, p := range ps {
+		if p.dyn == nil && len(merged) > 0 && merged[len(merged)-1].dyn == nil {
+			merged[len(merged)-1].konst += p.konst
+			continue
+		}
+		merged = append(merged, p)
+	}
+	ps = merged
+	for _, p := range ps {
+		if a.evalDepth > 0 {
+			break
+		}
+		if a.curSeg == nil {
+			a.curSeg = &genFrag{Pos: e.Pos(), Fn: a.curFn, At: l}
+		}
+		if p.dyn != nil {
+			a.curSeg.Text += "\x00"
+		} else {
+			a.curSeg.Text += p.konst
+		}
+	}
 	for i, p := range ps {
 		if p.dyn != nil {
 			prev := a.lastConst
@@ -620,6 +649,8 @@ func isBufWrite(call *ast.CallExpr) bool {
 }
 
 func (a *genWalker) stmts(list []ast.Stmt, l lexState, rets *[]lexState) (lexState, bool) {
+	a.flushSeg() // a statement list is a branch/loop/function body: its text starts a new segment
+	defer a.flushSeg()
 	for _, s := range list {
 		var dead bool
 		l, dead = a.stmt(s, l, rets)
@@ -640,7 +671,22 @@ func joinLex(x, y lexState) (lexState, bool) {
 	return x, true
 }
 
+func (a *genWalker) flushSeg() {
+	if a.evalDepth > 0 {
+		return // evaluating a string-valued helper emits nothing
+	}
+	if a.curSeg != nil && a.curSeg.Text != "" {
+		a.Segs = append(a.Segs, *a.curSeg)
+	}
+	a.curSeg = nil
+}
+
 func (a *genWalker) stmt(s ast.Stmt, l lexState, rets *[]lexState) (lexState, bool) {
+	switch s.(type) {
+	case *ast.IfStmt, *ast.SwitchStmt, *ast.RangeStmt, *ast.ForStmt, *ast.ReturnStmt, *ast.TypeSwitchStmt:
+		a.flushSeg()
+		defer a.flushSeg()
+	}
 	switch x := s.(type) {
 	case *ast.ExprStmt:
 		if call, ok := x.X.(*ast.CallExpr); ok {
@@ -1007,7 +1053,7 @@ func RunGenWalker(p *Prog, m *idlModel, root string) (*genWalker, lexState, stri
 	var end lexState
 	for iter := 0; iter < 6; iter++ {
 		a.changed = false
-		a.Splices, a.Frags, a.Problems = nil, nil, nil
+		a.Splices, a.Frags, a.Problems, a.Segs, a.curSeg = nil, nil, nil, nil, nil
 		a.locals, a.kwSafe, a.memo = map[types.Object]ast.Expr{}, map[types.Object]bool{}, map[string]lexState{}
 		a.curFn, a.lastConst = root, ""
 		var rets []lexState
